@@ -95,6 +95,34 @@ def selftest_axioms(seed=0):
             except Exception as ex:      # noqa
                 bad.append((name, args, f'{type(ex).__name__}: {ex}'))
     bad += _selftest_cuts(rng)
+    bad += _selftest_round(rng)
+    return bad
+
+
+def _selftest_round(rng, n=40):
+    """round(x) / round(x, k) of a symbolic number pinned to a concrete one (binary fractions, so that ties occur) is what CPython gives"""
+    import fractions
+    bad = []
+    for _ in range(n):
+        k = rng.choice([None, 0, 1, 2, 15, -1, -2])
+        if rng.random() < .5:
+            q = rng.randrange(-3000, 3000)
+            x, xs, kind = q / 8, z3.Q(q, 8), 'real'
+        else:
+            x = rng.randrange(-5000, 5000)
+            xs, kind = z3.IntVal(x), 'int'
+        v = z3.Real('rt_v') if kind == 'real' else z3.Int('rt_v')
+        r = _round_sym(Sym(v, kind), k)
+        sv = z3.Solver()
+        sv.add(v == xs)
+        if sv.check() != z3.sat:
+            bad.append(('round', (x, k), 'unsat'))
+            continue
+        got = sv.model().eval(r.t, model_completion=True)
+        g = fractions.Fraction(got.numerator_as_long(), got.denominator_as_long()) if z3.is_rational_value(got) else fractions.Fraction(got.as_long())
+        exp = round(x) if k is None else round(x, k)
+        if abs(g - fractions.Fraction(exp)) > fractions.Fraction(1, 10 ** 9) or (k is None) != (r.k == 'int' and kind == 'real' or (kind == 'int' and k is None)):
+            bad.append(('round', (x, k), f'{g} != {exp}'))
     return bad
 
 
@@ -1101,14 +1129,37 @@ def m_abs(it, v):
     return it.native(abs, [v], {})
 
 
+def _round_sym(v, n):
+    """round(x) / round(x, n) of a symbolic number for a concrete n, exactly over the reals (A-float): the nearest multiple of 10**-n,
+    a tie going to the even one"""
+    import fractions
+    if v.k == 'int' and (n is None or n >= 0):
+        return v
+    p = fractions.Fraction(10) ** (n or 0)
+    scale = z3.Q(p.numerator, p.denominator)
+    x = z3.ToReal(v.t) if v.k == 'int' else v.t
+    r = x * scale
+    f = z3.ToInt(r)
+    frac = r - z3.ToReal(f)
+    half = z3.Q(1, 2)
+    ri = z3.If(frac < half, f, z3.If(frac > half, f + 1, z3.If(f % 2 == 0, f, f + 1)))
+    if n is None:
+        return Sym(ri, 'int')
+    if v.k == 'int':
+        return Sym(ri * z3.IntVal(int(1 / p)), 'int')
+    return Sym(z3.ToReal(ri) / scale, 'real')
+
+
 def m_round(it, v, n=None):
     if isinstance(v, SymObject):
         m = getattr(v, 'm___round__', None)
         if m is None:
             raise RaiseEx(TypeError(f'type {v.py_type.__name__} doesn\'t define __round__ method'))
         return m(it, n)
+    if is_sym(v) and not is_sym(n) and (n is None or (isinstance(n, int) and not isinstance(n, bool))) and lift(v).k in ('int', 'real'):
+        return _round_sym(lift(v), n)
     if is_sym(v) or is_sym(n):
-        raise Unsupported('round() on symbolic value (banker\'s rounding not modelled)')
+        raise Unsupported('round() of a symbolic value to a symbolic number of digits')
     if not is_prim(v):
         f = lookup_special(v, '__round__')
         if f is not None and is_repo_func(f):
